@@ -520,28 +520,31 @@ impl DrawState {
 
         let term_width = term.width() as usize;
 
-        // Here we calculate the terminal vertical real estate that the state requires
-        let full_height = self.visual_line_count(.., term_width);
+        // Here we calculate the terminal vertical real estate that the bars require; the text
+        // lines in front of them are painted above the managed region and are not part of it
+        let text_count = self
+            .lines
+            .iter()
+            .take_while(|line| !matches!(line, LineType::Bar(_)))
+            .count();
+        let full_height = self.visual_line_count(text_count.., term_width);
 
         let shift = match self.alignment {
-            // If we align to the bottom and the new height is less than before, clear the lines
-            // that are not used by the new content.
-            MultiProgressAlignment::Bottom if full_height < *bar_count => {
-                let shift = *bar_count - full_height;
-                for _ in 0..shift.as_usize() {
-                    term.write_line("")?;
-                }
-                shift
-            }
+            // If we align to the bottom and the new height is less than before, the rows that
+            // are not used by the new content stay blank between the text and the bars.
+            MultiProgressAlignment::Bottom if full_height < *bar_count => *bar_count - full_height,
             _ => VisualLines::default(),
         };
+        let padding = vec![LineType::Empty; shift.as_usize()];
+        let (text, bars) = self.lines.split_at(text_count);
+        let count = self.lines.len() + padding.len();
 
         // Accumulate the displayed height in here. This differs from `full_height` in that it will
         // accurately reflect the number of lines that have been displayed on the terminal, if the
         // full height exceeds the terminal height.
         let mut real_height = VisualLines::default();
 
-        for (idx, line) in self.lines.iter().enumerate() {
+        for (idx, line) in text.iter().chain(&padding).chain(bars).enumerate() {
             let line_height = line.wrapped_height(term_width);
 
             // Check here for bar lines that exceed the terminal height
@@ -562,7 +565,7 @@ impl DrawState {
 
             term.write_str(line.as_ref())?;
 
-            if idx + 1 == self.lines.len() {
+            if idx + 1 == count {
                 // For the last line of the output, keep the cursor on the right terminal
                 // side so that next user writes/prints will happen on the next line
                 let last_line_filler = line_height.as_usize() * term_width - line.console_width();
